@@ -359,7 +359,7 @@ func c10Upload(c *Ctx) {
 		}
 	}
 
-	c.R.Rule("tempfile-pairing", "after every os.CreateTemp, on the err==nil edge, a defer that calls os.Remove on the file's name is registered before any return or loop back-edge; every os.Open result gets a deferred Close on its success edge", 2)
+	c.R.Rule("tempfile-pairing", "after every os.CreateTemp, on the err==nil edge, a defer that calls os.Remove on the created file's own Name() is registered before any return or loop back-edge; every os.Open result gets a deferred Close on its success edge", 2)
 	for _, fn := range c.moduleFuncs(func(p string) bool { return p == pkgTransport }) {
 		for _, call := range an.CallsIn(fn, func(_ ssa.CallInstruction, ci an.CalleeInfo) bool {
 			n := ci.FullName()
@@ -524,14 +524,61 @@ func (c *Ctx) deferBeforeExit(fn *ssa.Function, start *ssa.BasicBlock, res *ssa.
 		if !ok {
 			return false
 		}
+		// for os.Remove: what is removed is the file that was created (its Name()), not some other path
+		isCreated := func(v ssa.Value, bind map[*ssa.FreeVar]ssa.Value) bool {
+			if want != "os.Remove" {
+				return true
+			}
+			for depth := 0; depth < 5 && v != nil; depth++ {
+				v = an.Strip(v)
+				switch x := v.(type) {
+				case *ssa.FreeVar:
+					v = bind[x]
+				case *ssa.UnOp:
+					if a := x.X; x.Op == token.MUL {
+						if fv, ok := a.(*ssa.FreeVar); ok {
+							a = bind[fv]
+						}
+						if a == nil {
+							return false
+						}
+						sts := an.CellStores(a)
+						if len(sts) != 1 {
+							return false
+						}
+						v = sts[0].Val
+					} else {
+						return false
+					}
+				case *ssa.Call:
+					if an.CalleeOf(x).FullName() != "(*os.File).Name" {
+						return false
+					}
+					cc := an.AllExtractOf(x.Call.Args[0], 0)
+					return cc != nil && cc == ssa.CallInstruction(res)
+				default:
+					return false
+				}
+			}
+			return false
+		}
 		if an.CalleeOf(d).FullName() == want {
-			return true
+			return len(d.Call.Args) == 0 || isCreated(d.Call.Args[0], nil) || want != "os.Remove"
 		}
 		if mc, ok := d.Call.Value.(*ssa.MakeClosure); ok {
-			for _, b := range mc.Fn.(*ssa.Function).Blocks {
+			cl := mc.Fn.(*ssa.Function)
+			bind := map[*ssa.FreeVar]ssa.Value{}
+			for i, fv := range cl.FreeVars {
+				if i < len(mc.Bindings) {
+					bind[fv] = mc.Bindings[i]
+				}
+			}
+			for _, b := range cl.Blocks {
 				for _, x := range b.Instrs {
 					if cc, ok := x.(ssa.CallInstruction); ok && an.CalleeOf(cc).FullName() == want {
-						return true
+						if want != "os.Remove" || isCreated(cc.Common().Args[0], bind) {
+							return true
+						}
 					}
 				}
 			}
